@@ -100,7 +100,7 @@ def logical_failures(R, g, fails, stats):
     from its file after an undo, redo of something not undone, undo of something already undone, a rename in the same second,
     an occupied destination, an invalid pattern. Whatever exit status != 0 they report, tree and history must be as before."""
     quick = R.tier == "quick"
-    for i in range(3 if quick else 40):
+    for i in range(3 if quick else 16):
         a, b = g.term_pair()
         s, t = gen.render(a, "Snake"), gen.render(b, "Snake")
         tree = [{"p": "notes.txt", "k": "f", "c": (f"use {s} here\n{gen.render(a, 'Camel')}\n").encode(), "m": 0o644},
@@ -204,7 +204,7 @@ def other_commands_injected(R, g, fails, known, stats, errnos):
     that reports success, the complete planned tree plus exactly one new history entry."""
     quick = R.tier == "quick"
     kinds = ["rename", "redo", "replace"]
-    for i in range(3 if quick else 18):
+    for i in range(3 if quick else 9):
         kind = kinds[i % 3]
         tree, search, replace = scenario(g, i)
         # reference: what the command does without a fault
@@ -256,7 +256,7 @@ def other_commands_injected(R, g, fails, known, stats, errnos):
                           "search": search, "replace": replace, "stderr": e.decode("utf-8", "replace")[-300:]})
             continue
         stats["other_cmd_scenarios"] = stats.get("other_cmd_scenarios", 0) + 1
-        step = 1 if not quick else max(1, len(evs) // 12)
+        step = 2 if not quick else max(1, len(evs) // 12)      # thorough: every second event (the whole run has to fit its time limit)
         for j, ev in enumerate(evs):
             if j % step:
                 continue
@@ -309,7 +309,7 @@ def run(R):
     M = core.Model([str(mp)])
     g = gen.G(R.seed * 999983 + 4)
     quick = R.tier == "quick"
-    nscen = 4 if quick else 30
+    nscen = 4 if quick else 12       # (30 scenarios x 3 errnos needed more than 90 minutes on a loaded machine)
     errnos = ["EIO"] if quick else ["EIO", "ENOSPC", "EACCES"]
     fails, dis, known = [], [], {}
     stats = {"scenarios": 0, "injected_runs": 0, "by_class": {}, "events_by_class": {}, "stale_runs": 0}
